@@ -172,7 +172,18 @@ def _is_loop_entry(g, p, h):
 
 
 def _excludes_none(cond, arm, arg):
-    if arg is None or cond.kind != "cmp":
+    if arg is None:
+        return False
+    if cond.kind == "boolop":
+        # a and b: taken arm implies every conjunct; a or b: not-taken arm refutes every disjunct
+        if cond.args[0] == "and" and arm is True:
+            return any(_excludes_none(c, True, arg) for c in cond.args[1:])
+        if cond.args[0] == "or" and arm is False:
+            return any(_excludes_none(c, False, arg) for c in cond.args[1:])
+        return False
+    if cond.kind == "not":
+        return _excludes_none(cond.args[0], not arm, arg)
+    if cond.kind != "cmp":
         return False
     op, a, b = cond.args
     if op not in ("is", "is not"):
